@@ -1449,3 +1449,111 @@ B('c17-benign-get-rename', 'C17', DS,
   '''        if getattr(instance, self.iam_enabled_attr_name, True):
             return self.func(instance)
         return getattr(instance, self.real_field_name)''')
+
+# =========================================================================== C19
+S('c19-nul-rule-dropped', 'C19', F,
+  '''        self.default = default
+        if not default and isinstance(byte_count, int):
+            self.default = b"\\x00" * byte_count
+''', '''        self.default = default
+''', 'C19-ctor-defaults')
+S('c19-nul-rule-space', 'C19', F, '''            self.default = b"\\x00" * byte_count''', '''            self.default = b" " * byte_count''', 'C19-ctor-defaults')
+S('c19-seq-default-or', 'C19', SF,
+  '''        self.default = default if default is not None else []''', '''        self.default = default or SHARED_EMPTY''',
+  edits=[(SF, '''        self.default = default if default is not None else []''', '''        self.default = default or SHARED_EMPTY'''),
+         (SF, '''def normalize_raw_condition_into_a_callable(raw_condition):''', '''SHARED_EMPTY = []
+
+
+def normalize_raw_condition_into_a_callable(raw_condition):''')], rule='C19-ctor-defaults')
+S('c19-ref-clone-replaced', 'C19', F,
+  '''            if self.field_name not in defaults:
+                defaults[self.field_name] = prototype.clone()''',
+  '''            if self.field_name not in defaults:
+                defaults[self.field_name] = self.default''')
+S('c19-bits-default-ignored', 'C19', F,
+  '''        setattr(
+            packet, self.field_name,
+            defaults.get(self.field_name, self.default)
+        )
+
+    def unpack(self, pkt, raw, offset=0, **k):
+        if self.iam_first:''',
+  '''        setattr(
+            packet, self.field_name,
+            defaults.get(self.field_name, 0)
+        )
+
+    def unpack(self, pkt, raw, offset=0, **k):
+        if self.iam_first:''', 'C19-init-stores')
+S('c19-int-default-one', 'C19', F, 'def __init__(self, byte_count=4, signed=False, endianness=None, default=0):', 'def __init__(self, byte_count=4, signed=False, endianness=None, default=None):', 'C19-ctor-defaults')
+S('c19-keyword-ignored-when-falsy', 'C19', F,
+  '''            defaults.get(self.field_name, self.default)
+        )
+
+    def unpack(self, pkt, raw, offset=0, **k):
+        raise NotImplementedError(
+            "This method should be implemented during the 'compilation' phase."
+        )
+
+    def pack(self, pkt, fragments, **k):
+        raise NotImplementedError(
+            "This method should be implemented during the 'compilation' phase."
+        )
+
+    def _unpack_fixed_and_primitive_size''',
+  '''            defaults.get(self.field_name) or self.default
+        )
+
+    def unpack(self, pkt, raw, offset=0, **k):
+        raise NotImplementedError(
+            "This method should be implemented during the 'compilation' phase."
+        )
+
+    def pack(self, pkt, fragments, **k):
+        raise NotImplementedError(
+            "This method should be implemented during the 'compilation' phase."
+        )
+
+    def _unpack_fixed_and_primitive_size''', 'C19-init-stores')
+S('c19-ref-callable-default-optional', 'C19', F,
+  '''            if default is None:
+                raise ValueError(
+                    "If your are using an expression of fields or a callable as the prototype of Ref I need a default object."
+                )
+
+            self.default = default''',
+  '''            self.default = default''', 'C19-ctor-defaults')
+S('c19-ref-prototype-not-copied', 'C19', F, '''            self.default = copy.deepcopy(prototype)''', '''            self.default = prototype''', 'C19-ctor-defaults')
+S('c19-init-skips-private', 'C19', PK,
+  '''            for field_name, field, _, _ in self.__class__.get_fields():
+                field.init(self, defaults)''',
+  '''            for field_name, field, _, _ in self.__class__.get_fields():
+                if field_name.startswith('__'):
+                    continue
+                field.init(self, defaults)''', 'C19-packet-init')
+S('c19-init-fresh-dict', 'C19', PK,
+  '''                field.init(self, defaults)
+                try:''',
+  '''                field.init(self, dict(defaults) if field.is_fixed else defaults)
+                try:''', 'C19-packet-init')
+S('c19-optional-child-not-initialised', 'C19', SF,
+  '''    def init(self, packet, defaults):
+        Field.init(self, packet, defaults)
+        self.prototype_field.init(packet, {})
+
+    def unpack(self, pkt, raw, offset=0, **k):
+        proceed''',
+  '''    def init(self, packet, defaults):
+        Field.init(self, packet, defaults)
+
+    def unpack(self, pkt, raw, offset=0, **k):
+        proceed''', 'C19-init-stores')
+B('c19-benign-data-default-rewrite', 'C19', F,
+  '''        self.default = default
+        if not default and isinstance(byte_count, int):
+            self.default = b"\\x00" * byte_count
+''', '''        if not default and isinstance(byte_count, int):
+            self.default = byte_count * b"\\x00"
+        else:
+            self.default = default
+''')
